@@ -150,6 +150,13 @@ def xopOf (j : Json) : Option XOp :=
       ⟨getStr j "name", optNid j "nid", optStr j "ctype", optStr j "model", optNid j "ns_nid",
        (getArr j "if_nids").map (·.filterMap (fun x => x.getStr?.toOption.map nidOfString)),
        (j.getObjValAs? Nat "n_labels").toOption, propArgs j "props"⟩ (getStr j "mt_model", getStr j "mt_type"))
+  else if op == "prune" then
+    some (.prune (((getArr j "nodes").getD []).filterMap (fun x => x.getStr?.toOption))
+      (((getArr j "comps").getD []).filterMap (fun x => match x with
+        | .arr #[.str a, .str b, .str c] => some (nidOfString a, b, nidOfString c)
+        | _ => none))
+      (((getArr j "nss").getD []).filterMap (fun x => x.getStr?.toOption.map nidOfString))
+      (((getArr j "ifs").getD []).filterMap (fun x => x.getStr?.toOption.map nidOfString)))
   else none
 
 def finishX (r : Except Err OutX × Topo) : Topo × Json :=
